@@ -15,11 +15,15 @@ func C15(c *core.Ctx) {
 		"depend only on the lower bound and the max-removal flag only on the upper bound. B-PAIR: in the caller, stores of nil under the remove-lower flag may hit only " +
 		"minimum/exclusiveMinimum, under the remove-upper flag only maximum/exclusiveMaximum. B-ALIAS: getMinIntType (a type chooser) must not store through a pointer that " +
 		"may be its caller's own data, directly or handed back by NormalizeBounds. " +
-		"Decided: which keyword each argument/flag/store refers to, and absence of in-place mutation. Not decided here: the arithmetic of the type tables (planned: region-domain " +
-		"abstract interpretation), float64 rounding at the 64-bit limits."
+		"B-SIZED: getMinIntType (with both type tables) is interpreted abstractly over the region domain — each bound a symbolic integer, every comparison with a constant splitting the world, so the " +
+		"worlds are exactly the cells of the line cut by the constants the code mentions; in every feasible cell the chosen type must hold the whole cell of each stated bound, be 64 bits wide on a side " +
+		"without bound, be unsigned iff the lower bound is known non-negative, be the narrowest such type, and a removal flag may be set only where the cell is the single point equal to the type's own limit. " +
+		"Decided: which keyword each argument/flag/store refers to, absence of in-place mutation, and the width/sign/removal table for integral bounds (exhaustive over cells). " +
+		"Not decided: float64 rounding at the 64-bit limits, fractional bounds, the ±1 adjustment for exclusive bounds inside getMinIntType (exclusive kinds are passed as absent here)."
 	a := engb.New(c.Prog)
 	r := a.BoundRoles()
 	emit(c, r.Results)
 	c.Floor("B-ROLE", r.Sites, 6, "role-checked call sites and flags")
 	emit(c, a.WritesThroughInput("pkg/codegen.getMinIntType"))
+	ruleSizedTable(c)
 }
